@@ -28,7 +28,7 @@ ANCHORS = ['classes:PaneBase.__init_subclass__', 'classes:PaneBase.__class_getit
            'classes:PaneOptions.replace']
 MIN_COUNTERS = {'quick': {'hierarchies': 2500, 'signature_checks': 2500, 'stdlib_mirror_checks': 2000, 'generic_hierarchies': 1200,
                           'substituted_field_conversions': 8000, 'option_inheritance_checks': 2500, 'redeclared_fields': 800,
-                          'custom_inherited_checks': 300, 'inner_generic_checks': 2000, 'plain_subclass_field_checks': 800, 'mixin_first_classes': 200}}
+                          'custom_inherited_checks': 300, 'inner_generic_checks': 2000, 'plain_subclass_field_checks': 800, 'mixin_first_classes': 200, 'multi_base_generic_checks': 1000}}
 
 TVS = {n: t.TypeVar(n) for n in ('T', 'U', 'V', 'W')}
 
@@ -812,3 +812,57 @@ def run(ctx):
                           mech='first-base-not-a-pane-class:options-lost')
 
     drive.for_each_case(ctx, 'plain-subclass', 40, body_plain_subclass_and_mixins, gen=lambda c, r: Ty('int'))
+
+    # several generic bases: what one base binds stays with ITS fields (also when both bases use the same variable object), the
+    # parameters forwarded to ANY base remain parameters of the class, in both base orders; and `G[None]` means NoneType
+    def body_multi_base_generics(i, rng, ty, T):
+        import types as _types
+        import warnings as _warnings
+        TA, TB = t.TypeVar('TA'), t.TypeVar('TB')
+        n = next(_serial)
+
+        def gcls(name, field, var):
+            return _types.new_class(f"{name}{n}", (env.PaneBase, t.Generic[var]), {}, lambda ns: ns.update({'__annotations__': {field: var}, '__module__': __name__}))
+        with _warnings.catch_warnings():
+            _warnings.simplefilter('ignore')
+            same_var = rng.random() < 0.5
+            Stamped, Box = gcls('MStamped', 'stamp', TA), gcls('MBox', 'item', TA if same_var else TB)
+            V = TA if same_var else TB
+            Named = type(f"MNamed{n}", (env.PaneBase,), {'__annotations__': {'name': str}, '__module__': __name__})
+            arg, good, bad = rng.choice(((str, 's', 5), (int, 5, 's'), (t.List[int], [1], ['a'])))
+            kind = rng.choice(('bound-sibling-first', 'bound-sibling-second', 'plain-first', 'two-forwarded', 'none-argument'))
+            if kind in ('bound-sibling-first', 'bound-sibling-second'):
+                bases = (Stamped[int], Box[V]) if kind == 'bound-sibling-first' else (Box[V], Stamped[int])
+                mk = lambda: _types.new_class(f"MSB{n}", bases + (t.Generic[V],), {}, lambda ns: ns.update({'__annotations__': {}, '__module__': __name__}))[arg]
+                rows = [({'stamp': 1, 'item': good}, True), ({'stamp': 1, 'item': bad}, False), ({'stamp': 'x', 'item': good}, False)]
+            elif kind == 'plain-first':
+                order = rng.choice(((Named, Box[V]), (Box[V], Named)))
+                mk = lambda: type(f"MNB{n}", order, {'__annotations__': {}, '__module__': __name__})[arg]
+                rows = [({'item': good, 'name': 'q'}, True), ({'item': bad, 'name': 'q'}, False), ({'item': good, 'name': 5}, False)]
+            elif kind == 'two-forwarded':
+                Tag = gcls('MTag', 'tag', TB if same_var else TA)
+                W = TB if same_var else TA
+                mk = lambda: type(f"MBoth{n}", (Box[V], Tag[W]), {'__annotations__': {}, '__module__': __name__})[arg, bool]
+                rows = [({'item': good, 'tag': True}, True), ({'item': bad, 'tag': True}, False), ({'item': good, 'tag': 'no'}, False)]
+            else:
+                sub = rng.random() < 0.5
+                mk = (lambda: type(f"MDone{n}", (Box[None],), {'__annotations__': {}, '__module__': __name__})) if sub else (lambda: Box[None])
+                rows = [({'item': None}, True), ({'item': 1}, False), ({'item': 'x'}, False)]
+            built = observe(mk)
+            ctx.count('multi_base_generic_classes')
+            ctx.case(('multi-base-generics', kind, same_var, built.kind), nontrivial=True)
+            if built.kind != 'value':
+                ctx.violation('type-variable-substitution', 'multi-base-generics', i, {'shape': kind, 'same_variable_object_in_both_bases': same_var, 'argument': short(arg, 40),
+                                                                                  'class_creation_or_subscript': built.brief()[:250]}, mech=f"multi-base-generic-unusable:{kind}")
+                return
+            C = built.val
+            for data, must in rows:
+                o = observe(C.from_data, data)
+                ctx.count('multi_base_generic_checks')
+                if o.kind == 'escape' or (o.kind == 'value') != must:
+                    ctx.violation('conversion-enforces-substituted-types', 'multi-base-generics', i,
+                                  {'shape': kind, 'same_variable_object_in_both_bases': same_var, 'argument': short(arg, 40), 'data': short(data, 100), 'must_accept': must,
+                                   'pane': o.brief()[:200], 'field_types': short({f.name: f.type for f in C.__pane_info__.fields}, 200)}, mech=f"multi-base-generic-wrong-field-type:{kind}")
+                    return
+
+    drive.for_each_case(ctx, 'multi-base-generics', 60, body_multi_base_generics, gen=lambda c, r: Ty('int'))
